@@ -72,5 +72,30 @@ Proof.
   rewrite Hg. cbn [strip_named]. rewrite unmarshal_kind_S. apply unregistered_tag_rejected. exact H.
 Qed.
 
+(* a transform's tag names the transformed type, not its serial form: the machine of the serial type gets
+   the item without that tag (fix of D20; before, a tagged transform with serial type interface{} sent the
+   item back to itself through the tag) ... *)
+Theorem tagged_transform_hands_on_untagged : forall E A f e kind wire cur v tg r,
+  ae_kind e = ETransform kind wire -> ae_tag e = Some tg ->
+  unmarshal_entry E A (S f) e cur (Tok v (Some tg) :: r) =
+  ubind (unmarshal_bare E A f wire (zero 50 E wire) (Tok v None :: r))
+        (fun w r' => match tr_bwd kind w with Some x => UOk x r' | None => UErr (S (length r')) end).
+Proof.
+  intros E A f e kind wire cur v tg r Hk Ht. rewrite unmarshal_entry_S, Hk, Ht.
+  cbn [untag_own]. rewrite Z.eqb_refl. reflexivity.
+Qed.
+
+(* ... and any other tag, or none, is passed on unchanged *)
+Theorem transform_keeps_foreign_tag : forall E A f e kind wire cur v tg tg' r,
+  ae_kind e = ETransform kind wire -> ae_tag e = Some tg -> tg <> tg' ->
+  unmarshal_entry E A (S f) e cur (Tok v (Some tg') :: r) =
+  ubind (unmarshal_bare E A f wire (zero 50 E wire) (Tok v (Some tg') :: r))
+        (fun w r' => match tr_bwd kind w with Some x => UOk x r' | None => UErr (S (length r')) end).
+Proof.
+  intros E A f e kind wire cur v tg tg' r Hk Ht Hne. rewrite unmarshal_entry_S, Hk, Ht.
+  cbn [untag_own]. destruct (tg =? tg') eqn:Hq; [apply Z.eqb_eq in Hq; contradiction | reflexivity].
+Qed.
+
 Print Assumptions tagged_type_emits_tag.
+Print Assumptions tagged_transform_hands_on_untagged.
 Print Assumptions registered_tag_reconstructs_type.
